@@ -17,6 +17,7 @@ import Golib.Proof.C07Shape
 import Golib.Proof.C07Multi
 import Golib.Proof.C07Fast
 import Golib.Proof.C07InPlace
+import Golib.Proof.C07FormatBuf
 
 namespace Golib.C07
 
@@ -75,6 +76,24 @@ theorem c07_inplace_eq (c : Codec) (pad src : Bytes) :
   obtain ⟨e, dst', hp, hl, he, ht⟩ := run_spec (body := c.body) h (c.bodySpec src _)
   refine ⟨e, dst', hp, ht, ?_⟩
   rw [← ht, List.length_take]; omega
+
+/-- EARLY MOVES are harmless: `runIPe early` is the one-memory machine that, at the start of any
+iteration picked by an ARBITRARY oracle `early`, first moves the pending literal run down and
+sets `f = i` — which is what `Utf16Parse` does after its first `\\uXXXX` has parsed and before
+it knows whether a high surrogate is followed by a low one (`enc.go:335-338`), the one place
+where the Go loop bodies write before an escape is accepted.  For every `early`, codec, `src`
+and content in front, the returned bytes are those of `c07_inplace_eq`: such a move changes no
+byte that is read later (`moveIP_spec`: memory from the read cursor on is untouched). -/
+theorem c07_inplace_early_move (early : IP → Bool) (c : Codec) (pad src : Bytes) :
+    ∃ out, parseToString c.body src = .ok out ∧
+      runIPe early c.dec pad.length (pad ++ src) = (out.length, out) :=
+  ⟨parseFun c.dec src, parseToString_eq c.bodySpec src,
+    runIPe_eq early (decOk_of_bodySpec c.bodySpec) pad src⟩
+
+/-- Non-vacuity: an unpaired high surrogate between text, early move at every iteration. -/
+example : runIPe (fun _ => true) utf16DecF 0
+    [97, 98, 92, 117, 68, 56, 51, 68, 120, 92, 117, 48, 48, 52, 49] =
+    (10, [97, 98, 92, 117, 68, 56, 51, 68, 120, 65]) := by decide
 
 /-- Non-vacuity: `\x41hello\x42` in place is `AhelloB` (7 bytes), also with 3 bytes in front. -/
 example : runIP hexDec 0 [92, 120, 52, 49, 104, 101, 108, 108, 111, 92, 120, 52, 50] =
@@ -341,6 +360,36 @@ theorem c07_format_shape (s out : Bytes) :
     exact ⟨this, by rw [this.length]; simp [Utf8.runeCount, Utf8.rangeDecode]; omega⟩
   · obtain ⟨n, hn⟩ := utf16FormatAux_shape s.length s out h
     exact ⟨n, hn, by rw [hn.length]; simp; omega⟩
+
+/-- The Format functions AS CODED — output buffer allocated up front (`len(s)*4`,
+`RuneCount*10`; `Utf16Format`: capacity `RuneCount*6`, grown by `append`), escapes written
+through the cursors `j`/`f` by indexed stores, `appendUint` with its three memory operations
+(digits at the start of the window, memmove to its end, zero padding), `toUpper` in place,
+`copy(b[f:j], "0000FFFD")` (Model/C07FormatBuf.lean; an index or slice bound outside the buffer
+is `none`) — never index outside their buffer and return exactly what the value-level
+formatters of the other theorems return.  For `Utf16Format` the buffer is re-allocated exactly
+when the appended escapes outgrow the estimate (`grown`); the contents are unaffected. -/
+theorem c07_format_buffer_eq (s : Bytes) :
+    octalFormatB s = octalFormat s ∧ hexFormatB s = hexFormat s ∧
+    (∃ out, unicodeFormat s = some out ∧ unicodeFormatB s = some out) ∧
+    (∃ out g, utf16Format s = some out ∧ utf16FormatB s = some g ∧ g.b = out) := by
+  refine ⟨?_, ?_, ?_, ?_⟩
+  · have := octalLoopB_spec s [] (List.replicate (s.length * 4) 0) (by simp; omega)
+    simpa [octalFormatB] using this
+  · have := hexLoopB_spec s [] (List.replicate (s.length * 4) 0) (by simp; omega)
+    simpa [hexFormatB] using this
+  · obtain ⟨out, hf, -⟩ := (c07_unicode_roundtrip s).1
+    have hl := ((c07_format_shape s out).2.2.1 hf).2
+    have := unicodeLoopB_spec s.length s out [] (List.replicate (Utf8.runeCount s * 10) 0) hf
+      (by simp; omega)
+    exact ⟨out, hf, by simpa [unicodeFormatB] using this⟩
+  · obtain ⟨out, hf, -⟩ := (c07_utf16_roundtrip s).1
+    obtain ⟨g, h1, h2⟩ := utf16LoopB_spec s.length s out ⟨[], Utf8.runeCount s * 6, 0⟩ hf
+    exact ⟨out, g, hf, by simpa [utf16FormatB] using h1, by simpa using h2⟩
+
+/-- Non-vacuity: two supplementary runes need 24 bytes, the estimate reserves 12: one re-allocation. -/
+example : (utf16FormatB [240, 159, 152, 128, 240, 159, 152, 128]).map (fun g => (g.b.length, g.grown)) =
+    some (24, 1) := by decide
 
 /-- Non-vacuity: Format of an invalid byte, a 3-byte and a 4-byte rune. -/
 example : unicodeFormat [255, 230, 151, 165] =
